@@ -5275,3 +5275,73 @@ func init() {
 	txt := "the whole-dataset readers agree: ReadDatasetFloat64, ReadDatasetStrings and ReadDatasetCompound compare the header message type with the same set of constants (datatype, dataspace, layout, filter pipeline) and each sizes its result with DataspaceMessage.TotalElements()"
 	shareRule([]string{"C06", "C01", "C08"}, txt, "C06", func(c *Ctx, r *Result, id string) { siblingReadersRule(c, r, id) })
 }
+
+// remainderAsPaddingRule: behind x%K != 0 the remainder itself is never what gets added - the padding is K minus it.
+func remainderAsPaddingRule(c *Ctx, r *Result, rule string, floor int) {
+	n := 0
+	for _, fn := range c.LibFuncs() {
+		if fn.Blocks == nil {
+			continue
+		}
+		var fb *FB
+		k := 0
+		for _, b := range fn.Blocks {
+			ifi, ok := b.Instrs[len(b.Instrs)-1].(*ssa.If)
+			if !ok {
+				continue
+			}
+			cmp, ok := ifi.Cond.(*ssa.BinOp)
+			if !ok || (cmp.Op != token.NEQ && cmp.Op != token.EQL) {
+				continue
+			}
+			z, isZ := constInt(cmp.Y)
+			rem, isRem := cmp.X.(*ssa.BinOp)
+			if !isZ || z != 0 || !isRem || rem.Op != token.REM {
+				continue
+			}
+			K, isK := constInt(rem.Y)
+			if !isK || K < 2 {
+				continue
+			}
+			arm := b.Succs[0]
+			if cmp.Op == token.EQL {
+				arm = b.Succs[1]
+			}
+			region := edgeRegion(b, arm)
+			if len(region) == 0 {
+				continue
+			}
+			if fb == nil {
+				fb = c.FB(fn)
+			}
+			n++
+			k++
+			bad := ""
+			for blk := range region {
+				for _, in := range blk.Instrs {
+					r2, isR := in.(*ssa.BinOp)
+					if !isR || r2.Op != token.REM {
+						continue
+					}
+					if kk, isKK := constInt(r2.Y); !isKK || kk != K || !sameByName(fb, fb.lin(r2.X), fb.lin(rem.X)) {
+						continue
+					}
+					for _, ref := range *r2.Referrers() {
+						if add, isAdd := ref.(*ssa.BinOp); isAdd && add.Op == token.ADD {
+							bad = c.InstrPos(add)
+						}
+					}
+				}
+			}
+			r.Check(bad == "", rule, fmt.Sprintf("%s#remainder-not-used-as-padding-%d", c.Name(fn), k), firstNonEmpty(bad, c.InstrPos(cmp)), fmt.Sprintf("behind x%%%d != 0 the remainder x%%%d is not itself added to anything (the padding is %d minus the remainder)", K, K, K))
+		}
+	}
+	if n < floor {
+		r.Shortfall(c, rule, fmt.Sprintf("%s: only %d alignment tests found (expected >= %d)", rule, n, floor))
+	}
+}
+
+func init() {
+	txt := "padding is the distance to the boundary, not the distance from it: in the arm of `x%K != 0` the remainder x%K is not itself added to a cursor or size (8 - msgSize%8 written as msgSize%8 puts the next message of a version 1 header at an unaligned place: the header reads back with one message instead of two)"
+	shareRule([]string{"C11", "C05", "C06"}, txt, "C11", func(c *Ctx, r *Result, id string) { remainderAsPaddingRule(c, r, id, 8) })
+}
